@@ -66,6 +66,13 @@ func newShadow(n int, coe bool) *shadow {
 	return &shadow{on: true, n: n, coe: coe, jobs: map[*scheduler.ScheduledJob]*mJob{}}
 }
 
+// bind ties the model to one scheduler (identified by its hook key).
+func (m *shadow) bind(key uintptr) {
+	m.mu.Lock()
+	m.key = key
+	m.mu.Unlock()
+}
+
 func (m *shadow) bad(prop, format string, a ...interface{}) {
 	if len(m.viols) < 4 {
 		m.viols = append(m.viols, Viol{Prop: prop, Why: "shadow scheduler: " + fmt.Sprintf(format, a...)})
@@ -95,10 +102,11 @@ func (m *shadow) event(p int, key uintptr, j *scheduler.ScheduledJob, a, b, c in
 	if !m.on || m.unsound {
 		return
 	}
-	if m.key == 0 {
-		m.key = key
-	} else if m.key != key {
-		return // another scheduler (a straggler of an earlier scenario)
+	if m.key == 0 || m.key != key {
+		// not bound yet (the scenario binds the model to its scheduler right
+		// after creating it, before the first Enqueue), or another scheduler
+		// (a straggler of an earlier scenario)
+		return
 	}
 	m.events++
 	if m.exited {
